@@ -50,9 +50,18 @@ def fs_rules_un(b):
     return MpUnReachNLRI.parse(v)['withdraw']
 
 
+def _IPv4Unicast():
+    from yabgp.message.attribute.nlri.ipv4_unicast import IPv4Unicast
+    return IPv4Unicast
+
+
 DECODERS = {
     'v4prefix': lambda b: items(Update.parse_prefix_list(b)),
     'v6prefix': lambda b: items(IPv6Unicast.parse(b)),
+    # the second IPv4 prefix-list decoder (IPv4 unicast inside MP_REACH_NLRI / MP_UNREACH_NLRI), and both with add-path identifiers
+    'v4mp': lambda b: items(_IPv4Unicast().parse(b)),
+    'v4mp_ap': lambda b: items(_IPv4Unicast().parse(b, addpath=True)),
+    'v4prefix_ap': lambda b: items(Update.parse_prefix_list(b, True)),
     'lu4': lambda b: items(IPv4LabeledUnicast.parse(b)),
     'lu6': lambda b: items(IPv6LabeledUnicast.parse(b)),
     'vpn4': lambda b: items(IPv4MPLSVPN.parse(b)),
